@@ -2,6 +2,7 @@ import A2lVerif.Lemmas.IfDataTop
 import A2lVerif.Lemmas.IfDataWrite
 import A2lVerif.Lemmas.IfDataUid
 import A2lVerif.Lemmas.IfDataConf
+import A2lVerif.Lemmas.IfDataEnc
 import A2lVerif.Props.C03Parse
 import A2lVerif.Props.C06
 /-!
@@ -23,17 +24,21 @@ float is written with the text that `add_float` prints for the `f32` / `f64` rea
 a parameter of the model, DESIGN.md 2.2). One tolerated deviation is part of `agree`: the non-strict reader accepts an
 identifier where the definition has a string, with a diagnostic, and writes it back as a quoted string.
 
-Statements that are FALSE for the code as it is (each kept as a theorem with a concrete input, all three inputs
-confirmed on the Rust library):
-* `unknown_values_roundtrip_as_drafted_false`: balanced content that no definition describes is NOT always kept: one
-  comment between the `/end TAG` of an inner block and the next `/begin` makes `parse_unknown_taggedstruct` fail with
-  `InvalidBegin`, and with it the whole load. The corrected theorem has the hypothesis `NoCommentBeforeBegin`.
-* `conforming_accepted_needs_no_trailing_comment`: conforming content is NOT always recognised as valid: a comment
-  directly in front of the closing `/end` of the IF_DATA block makes `parse_ifdata_from_spec` give up; the block is
-  flagged invalid and `ifdata_cleanup()` removes it.
+History. Four defects that the first version of this file recorded as refuted statements were FIXED in the Rust code
+(testdata/fixes.diff), and the model follows the fixed code:
+* a comment between two items of uninterpreted content ended `parse_unknown_taggedstruct` and made the whole load fail
+  with `InvalidBegin`; `unknown_values_roundtrip` needed the hypothesis "no comment directly in front of a /begin".
+  Now the comment is skipped; the hypothesis is gone (`unknown_comment_between_blocks_kept` is the old counterexample,
+  now accepted).
+* a comment directly in front of the closing `/end` made conforming content invalid. Now comments are consumed before
+  the check: `trailing_comments_harmless`.
+* an array whose element can be empty was repeated `dim` times: `array_zero_width_stops`.
+* `1e999` (and `1e300` for a `float` member) was read as infinity and written as `inf`; now `MalformedNumber` (on the
+  model side the float codec parameters simply have no entry for such a token).
+Statements that are still FALSE for the code as it is (kept as theorems with a concrete input):
 * `conforming_accepted_needs_unambiguity`: the sequence loop is greedy, so an instance of a definition in which a
-  sequence is followed by a member of the same token class is not recognised (this one is inherent in the format).
-`valid_implies_conforming` is the half of `conforming_accepted` that holds without side conditions.
+  sequence is followed by a member of the same token class is not recognised (inherent in the format).
+  `valid_implies_conforming` is the half of `conforming_accepted` that holds without side conditions.
 * `specialSim_false_for_ifdata`: the hypothesis `SpecialSim` of Props/C06.lean does NOT hold for the real IF_DATA
   parser (a strict load silently turns a recoverable problem inside IF_DATA into "block invalid").
 -/
@@ -76,8 +81,12 @@ theorem Rel_def (e : Env) (f32 : List Char → Option (List Char)) (s s' : PStat
 theorem AtEnd_def (e : Env) (s : PState) : AtEnd e s ↔ ∃ t, e.toks[s.pos]? = some t ∧ t.ty = 2 := Iff.rfl
 theorem NonEmpty_def (e : Env) (s : PState) : NonEmpty e s ↔ ∃ t, e.toks[s.pos]? = some t ∧ t.ty ≠ 2 := Iff.rfl
 
+theorem EndBehindComments_def (e : Env) (p : Nat) : EndBehindComments e p ↔
+    ∃ q, p ≤ q ∧ (∀ i, p ≤ i → i < q → ∃ t, e.toks[i]? = some t ∧ t.ty = 6) ∧ ∃ t, e.toks[q]? = some t ∧ t.ty = 2 :=
+  Iff.rfl
 theorem Accepts_def (e : Env) (f32 : List Char → Option (List Char)) (ctx : Ctx) (sp : Spec) (p : Nat) :
-    Accepts e f32 ctx sp p ↔ ∃ s0 g s1, s0.pos = p ∧ itemP f32 sp ctx e s0 = .ok g s1 ∧ AtEnd e s1 := Iff.rfl
+    Accepts e f32 ctx sp p ↔
+      ∃ s0 g s1, s0.pos = p ∧ itemP f32 sp ctx e s0 = .ok g s1 ∧ EndBehindComments e s1.pos := Iff.rfl
 
 /-- "structurally balanced", read independently of the parser: a scanner with a stack of open tags -/
 theorem balanced_def (toks : Array PTok) (p : Nat) : balanced toks p = scan .normal [] (toks.toList.drop p) := rfl
@@ -102,8 +111,6 @@ theorem scan_def (m : Mode) (st : List (List Char)) (l : List PTok) : scan m st 
   | cons t rest => cases m <;> rfl
 
 theorem NoInc_def (e : Env) : NoInc e ↔ ∀ (i : Nat) (t : PTok), e.toks[i]? = some t → t.ty ≠ 3 := Iff.rfl
-theorem NoCommentBeforeBegin_def (e : Env) : NoCommentBeforeBegin e ↔
-    ∀ (i : Nat) (t t' : PTok), e.toks[i]? = some t → e.toks[i + 1]? = some t' → t.ty = 6 → t'.ty ≠ 1 := Iff.rfl
 theorem AtomsOk_def (e : Env) : AtomsOk e ↔ ∀ (i : Nat) (t : PTok), e.toks[i]? = some t →
     t.ty ≤ 6 ∧ (t.ty = 5 → NumOk t) ∧ (t.ty = 0 → e.strict = true → IdentOk t) := Iff.rfl
 theorem NumOk_def (t : PTok) : NumOk t ↔
@@ -251,6 +258,18 @@ theorem stored_data_written_in_order (e : Env) (f32 : List Char → Option (List
     write indent g = (pieces true indent g).flatMap renderPiece ∧ (pieces true indent g).map (·.2) = values true g :=
   write_renders_values true indent g (parseIfdata_uidOk h)
 
+/-- **the encoding at the hook boundary loses nothing**: the generic parser stores the `Val` that the `special` hook
+    returns; the IF_DATA model encodes its `GenericIfData` as `enc g`, the writer hook decodes it: `dec (enc g) = some g`,
+    and the hook writes `ifdata_items.write(indent - 1)` of exactly the data that was parsed. -/
+theorem enc_roundtrip (g : Gen) : dec (enc g) = some g := dec_enc g
+
+theorem hook_writes_stored_data (tyA2ml ty ty' indent : Nat) (info : Info) (g : Gen) (valid : Bool) (h : ty ≠ tyA2ml) :
+    specialWrite tyA2ml ty indent (.block ty' info (encIfData (some g) valid) [] []) = write (indent - 1) g :=
+  specialWrite_ifdata tyA2ml ty ty' indent info g valid h
+
+example : dec (enc (.block 1 [.taggedUnion [⟨1, 7, 0, 0, ['X'], .block 1 [.int 5 0 16 true, .float 1 ['1']], true⟩]])) =
+    some (.block 1 [.taggedUnion [⟨1, 7, 0, 0, ['X'], .block 1 [.int 5 0 16 true, .float 1 ['1']], true⟩]]) := dec_enc _
+
 example : write 2 (.block 1 [.taggedUnion [⟨1, 7, 0, 0, ['X'], .block 1 [.int 5 0 16 true, .str 1 ['a']], false⟩]]) =
     " X 0x10\n      \"a\"".toList := by
   rw [write, (write_renders_values true 2 _ (by simp [UidOk, UidOkL, UidOkT])).1]
@@ -258,50 +277,17 @@ example : write 2 (.block 1 [.taggedUnion [⟨1, 7, 0, 0, ['X'], .block 1 [.int 
 
 /-! ## 2. content that no definition describes -/
 
-/-- the draft of `unknown_values_roundtrip` ("content that does not conform but is structurally balanced is kept as
-    uninterpreted data") is FALSE for the code as it is: `X /begin A 2 /end A /* c */ /begin B 3 /end B` is balanced,
-    every token is well-formed, and `parse_unknown_ifdata_start` fails with `InvalidBegin` (confirmed on the Rust
-    library: `load_from_string` returns "/begin in block X is not followed by a valid tag"). The loop of
-    `parse_unknown_taggedstruct` ends when `get_next_tag_or_comment` returns the comment (which is consumed), and the
-    check behind the loop then sees an unused `/begin`. With two comments in a row the content is accepted. -/
-theorem unknown_values_roundtrip_as_drafted_false :
-    ¬ ∀ (toks : Array PTok) (strict : Bool) (ctx : Ctx) (s : PState),
-      TokOk toks → NoInc (specialEnv toks strict) → AtomsOk (specialEnv toks strict) → s.pos ≤ toks.size →
-      balanced toks s.pos = true → ∃ g s', unknownStart ctx (specialEnv toks strict) s = .ok g s' := by
-  intro h
-  have hk : TokOk cexToks := tokOk_of_lines cexToks (by decide)
-  have hni : NoInc (specialEnv cexToks false) := by
-    intro i t ht
-    have hlt := lt_of_getElem?_some ht
-    rw [show (specialEnv cexToks false).toks = cexToks from rfl, getElem?_pos cexToks i hlt] at ht
-    cases ht
-    exact (show ∀ i (h : i < cexToks.size), cexToks[i].ty ≠ 3 by decide) i hlt
-  have hat : AtomsOk (specialEnv cexToks false) := by
-    intro i t ht
-    have hlt := lt_of_getElem?_some ht
-    rw [show (specialEnv cexToks false).toks = cexToks from rfl, getElem?_pos cexToks i hlt] at ht
-    cases ht
-    have := (show ∀ i (h : i < cexToks.size), cexToks[i].ty ≤ 6 ∧ (cexToks[i].ty = 5 → NumOk cexToks[i]) by decide) i hlt
-    exact ⟨this.1, this.2, fun _ h => by cases h⟩
-  obtain ⟨g, s', hr⟩ := h cexToks false exCtx {} hk hni hat (by decide) (by decide)
-  have : errOf (unknownStart exCtx (specialEnv cexToks false) {}) = some .invalidBegin := by decide
-  rw [hr] at this
-  cases this
-
-example : balanced cexToks 0 = true := by decide
-example : errOf (unknownStart exCtx (specialEnv cexToks false) {}) = some .invalidBegin := by decide
-
-/-- **`unknown_values_roundtrip`** (CORRECTED: hypothesis `hcb`, no comment directly in front of a `/begin`, added).
-    When no applicable definition accepts non-empty content (`htry`) and the content is balanced, then `parse_ifdata`
-    succeeds through the fallback: the block is flagged invalid, the fallback stopped in front of the closing `/end`,
-    and the values written for the uninterpreted data are what the tokens say (numbers are read as `i32`, else `i64`,
-    else `u64`, else `f64`; identifiers are kept as identifiers). The other hypotheses say that the tokens are what
-    the tokenizer produces: lines (`TokOk`), no Include token, seven token kinds, every Number token is a number, and
-    in strict mode identifiers are valid identifiers (`AtomsOk`). -/
+/-- **`unknown_values_roundtrip`**. When no applicable definition accepts non-empty content (`htry`) and the content
+    is balanced, then `parse_ifdata` succeeds through the fallback: the block is flagged invalid, the fallback stopped
+    in front of the closing `/end`, and the values written for the uninterpreted data are what the tokens say (numbers
+    are read as `i32`, else `i64`, else `u64`, else `f64`; identifiers are kept as identifiers). The other hypotheses
+    say that the tokens are what the tokenizer produces: lines (`TokOk`), no Include token, seven token kinds, every
+    Number token is a number (a literal like `1e999` is not: `MalformedNumber`), and in strict mode identifiers are
+    valid identifiers (`AtomsOk`).
+    (Before the fix of `parse_unknown_taggedstruct` this needed "no comment directly in front of a /begin".) -/
 theorem unknown_values_roundtrip (toks : Array PTok) (strict : Bool) (f32 : List Char → Option (List Char))
     (specs : List Spec) (ctx : Ctx) (s s1 : PState)
     (hk : TokOk toks) (hni : NoInc (specialEnv toks strict)) (hat : AtomsOk (specialEnv toks strict))
-    (hcb : NoCommentBeforeBegin (specialEnv toks strict))
     (hne : NonEmpty (specialEnv toks strict) s)
     (htry : trySpecs f32 ctx specs (specialEnv toks strict) s = .ok none s1)
     (hbal : balanced toks s.pos = true) :
@@ -310,18 +296,17 @@ theorem unknown_values_roundtrip (toks : Array PTok) (strict : Bool) (f32 : List
   obtain ⟨hp, heq⟩ := parseIfdata_fallback hne htry
   obtain ⟨t, ht, _⟩ := hne
   have hlt : s.pos < toks.size := lt_of_getElem?_some ht
-  obtain ⟨g, s', hr, hend, hrel⟩ := (unknownStart_balanced toks strict f32 hk (by omega) hni hat hcb ctx s1
+  obtain ⟨g, s', hr, hend, hrel⟩ := (unknownStart_balanced toks strict f32 hk (by omega) hni hat ctx s1
     (by rw [hp]; omega)).1 (by rw [hp]; exact hbal)
   refine ⟨g, s', ?_, hend, hrel.fromPos hp.symm⟩
   rw [heq, bind_eq, hr]
   rfl
 
 /-- ... and when the content is not balanced, the fallback, and with it `parse_ifdata`, returns an error: it never
-    panics and never loops (this direction needs neither `hcb` nor the shape of the content) -/
+    panics and never loops -/
 theorem unbalanced_is_error (toks : Array PTok) (strict : Bool) (f32 : List Char → Option (List Char))
     (specs : List Spec) (ctx : Ctx) (s s1 : PState)
     (hk : TokOk toks) (hni : NoInc (specialEnv toks strict)) (hat : AtomsOk (specialEnv toks strict))
-    (hcb : NoCommentBeforeBegin (specialEnv toks strict))
     (hne : NonEmpty (specialEnv toks strict) s)
     (htry : trySpecs f32 ctx specs (specialEnv toks strict) s = .ok none s1)
     (hbal : balanced toks s.pos = false) :
@@ -329,9 +314,35 @@ theorem unbalanced_is_error (toks : Array PTok) (strict : Bool) (f32 : List Char
   obtain ⟨hp, heq⟩ := parseIfdata_fallback hne htry
   obtain ⟨t, ht, _⟩ := hne
   have hlt : s.pos < toks.size := lt_of_getElem?_some ht
-  obtain ⟨d, s', hr⟩ := (unknownStart_balanced toks strict f32 hk (by omega) hni hat hcb ctx s1
+  obtain ⟨d, s', hr⟩ := (unknownStart_balanced toks strict f32 hk (by omega) hni hat ctx s1
     (by rw [hp]; omega)).2 (by rw [hp]; exact hbal)
   exact ⟨d, s', by rw [heq, bind_eq, hr]⟩
+
+/-- the fallback alone, both directions at once: on well-formed tokens it succeeds exactly on balanced content -/
+theorem fallback_iff_balanced (toks : Array PTok) (strict : Bool) (hk : TokOk toks) (hne : toks.size ≠ 0)
+    (hni : NoInc (specialEnv toks strict)) (hat : AtomsOk (specialEnv toks strict)) (ctx : Ctx) (s : PState)
+    (hs : s.pos ≤ toks.size) :
+    (∃ g s', unknownStart ctx (specialEnv toks strict) s = .ok g s') ↔ balanced toks s.pos = true := by
+  have h := unknownStart_balanced toks strict (fun _ => none) hk (Nat.pos_of_ne_zero hne) hni hat ctx s hs
+  constructor
+  · rintro ⟨g, s', hr⟩
+    cases hb : balanced toks s.pos with
+    | true => rfl
+    | false =>
+      obtain ⟨d, s'', hr'⟩ := h.2 hb
+      rw [hr] at hr'; cases hr'
+  · intro hb
+    obtain ⟨g, s', hr, _⟩ := h.1 hb
+    exact ⟨g, s', hr⟩
+
+/-- the counterexample of the first version of this file (`X /begin A 2 /end A /* c */ /begin B 3 /end B`: one comment
+    between two inner blocks; the unfixed code failed with `InvalidBegin`): now kept, all values in order -/
+theorem unknown_comment_between_blocks_kept :
+    balanced cexToks 0 = true ∧
+    resOf (parseIfdata exF32 [exSpec] exCtx (specialEnv cexToks false) {}) =
+      some ([.ident ['X'], .begin_, .ident ['A'], .int 2 2 false, .end_, .ident ['A'],
+             .begin_, .ident ['B'], .int 2 3 false, .end_, .ident ['B']], false, 12) :=
+  ⟨by decide, by decide +kernel⟩
 
 example : balanced exGarbage 0 = true := by decide
 example : resOf (parseIfdata exF32 [exSpec] exCtx (specialEnv exGarbage false) {}) =
@@ -366,10 +377,31 @@ example : NonEmpty (specialEnv exToks true) {} ∧ Accepts (specialEnv exToks tr
   | ok g s1 =>
     rw [h] at hpos
     have hp : s1.pos = 4 := by simpa [endPos] using hpos
-    exact ⟨g, s1, rfl, rfl, tk 2 "/end".toList, by show exToks[s1.pos]? = _; rw [hp]; rfl, rfl⟩
+    refine ⟨g, s1, rfl, rfl, 4, by omega, fun i h1 h2 => by omega, tk 2 "/end".toList, rfl, rfl⟩
   | err d s1 => rw [h] at hpos; cases hpos
   | panic => rw [h] at hpos; cases hpos
   | fuel => rw [h] at hpos; cases hpos
+
+/-- **`trailing_comments_harmless`** (the positive form of what used to be the counterexample
+    `conforming_accepted_needs_no_trailing_comment`): if the interpreter of an applicable definition, started at the
+    content, succeeds and behind the place where it stops there is nothing but comments up to a `/end` token, then
+    the block is flagged valid. -/
+theorem trailing_comments_harmless (e : Env) (f32 : List Char → Option (List Char)) (specs : List Spec) (ctx : Ctx)
+    (s s' : PState) (r : Option Gen) (valid : Bool) (h : parseIfdata f32 specs ctx e s = .ok (r, valid) s')
+    (hne : NonEmpty e s) (sp : Spec) (hsp : sp ∈ specs) (s0 s1 : PState) (g : Gen) (hp : s0.pos = s.pos)
+    (hi : itemP f32 sp ctx e s0 = .ok g s1) (q : Nat) (hq : s1.pos ≤ q)
+    (hc : ∀ i, s1.pos ≤ i → i < q → ∃ t, e.toks[i]? = some t ∧ t.ty = 6)
+    (hend : ∃ t, e.toks[q]? = some t ∧ t.ty = 2) : valid = true :=
+  (valid_iff_interp e f32 specs ctx s s' r valid h).2 ⟨hne, sp, hsp, s0, g, s1, hp, hi, q, hq, hc, hend⟩
+
+/-- `X 0x10 "ab" 1.5 /* c */ /end ...`: `exToks` with a comment in front of the closing `/end` -/
+def exToksComment : Array PTok :=
+  #[tk 0 ['X'], tk 5 "0x10".toList, tk 4 "\"ab\"".toList, tk 5 "1.5".toList 1 (some "1.5".toList), tk 6 "/* c */".toList,
+    tk 2 "/end".toList, tk 0 "IF_DATA".toList]
+
+/-- the old counterexample: valid now, the same values as without the comment, the cursor in front of `/end` -/
+example : resOf (parseIfdata exF32 [exSpec] exCtx (specialEnv exToksComment true) {}) =
+    some ([.ident ['X'], .int 5 16 true, .str ['a', 'b'], .f32 "1.5".toList], true, 5) := by decide +kernel
 
 /-! ## 4. `ifdata_cleanup` -/
 
@@ -418,6 +450,24 @@ theorem parseIfdata_total (toks : Array PTok) (strict : Bool) (hk : TokOk toks) 
   exact ⟨this.1, this.2.1⟩
 
 theorem unknownFuel_def (n : Nat) : unknownFuel n = 3 * n + 8 := rfl
+
+/-- **`array_zero_width_stops`**: the array loop runs the interpreter of the element at most `dim` times AND at most
+    once more than the number of tokens it consumes (so at most `toks.size + 1` times), whatever `dim` is: it stops
+    after the first element that consumes nothing. (None of the budgets above mentions `dim`: the array loop is
+    structurally recursive on `dim` and needs no budget; before the fix its running time and the memory for the
+    result were proportional to `dim`, which comes from the A2ML text and can be `i32::MAX`.) -/
+theorem array_zero_width_stops (e : Env) (f32 : List Char → Option (List Char)) (of : Spec) (dim : Nat) (ctx : Ctx)
+    (s s' : PState) (vs : List Gen) (hs : s.pos ≤ e.toks.size)
+    (h : itemP f32 (.array of dim) ctx e s = .ok (.array vs) s') :
+    vs.length ≤ dim ∧ vs.length ≤ s'.pos - s.pos + 1 ∧ vs.length ≤ e.toks.size + 1 := by
+  have h1 := itemP_array_length f32 of dim ctx s s' (.array vs) hs h vs rfl
+  have h2 := (itemP_ok f32 (.array of dim) ctx s (.array vs) s' hs h).2.1
+  exact ⟨h1.1, h1.2, by omega⟩
+
+/-- `taggedunion { "X" uint; }[2147483647]` on `X 1 /end`: the first element takes `X 1`, the second is empty, stop -/
+example : resOf (parseIfdata exF32 [.array (.taggedUnion [⟨['X'], .int 5, false, false⟩]) 2147483647] exCtx
+    (specialEnv #[tk 0 ['X'], tk 5 ['1'], tk 2 "/end".toList, tk 0 "IF_DATA".toList] true) {}) =
+    some ([.ident ['X'], .int 5 1 false], true, 2) := by decide +kernel
 
 /-- the hypotheses are satisfiable: the example tokens, an IF_DATA block (`ty = 1`, the type `A2ml` being 0) -/
 example : special 0 exF32 [exSpec] 1 exCtx 0 exToks true {} ≠ .panic ∧
@@ -563,41 +613,5 @@ theorem conforming_accepted_needs_unambiguity :
   refine .cons (.kw (tg := ⟨['A'], .seq (.int 5), false, false⟩) (by rfl) rfl rfl ?_) .nil
   show Conf _ _ _ ([tk 5 ['1']] ++ [])
   exact .seq (n := 1) (.succ (.int (r := (1, false)) rfl (by decide)) .zero)
-
-/-- `X 0x10 "ab" 1.5 /* c */ /end ...`: `exToks` with a comment in front of the closing `/end` -/
-def exToksComment : Array PTok :=
-  #[tk 0 ['X'], tk 5 "0x10".toList, tk 4 "\"ab\"".toList, tk 5 "1.5".toList 1 (some "1.5".toList), tk 6 "/* c */".toList,
-    tk 2 "/end".toList, tk 0 "IF_DATA".toList]
-
-/-- ... and it is FALSE even for an unambiguous definition when a comment stands directly in front of the closing
-    `/end`: `parse_ifdata_from_spec` peeks at the next token, finds the comment instead of `/end`, and gives up; the
-    content is then kept by the fallback and flagged invalid, so `ifdata_cleanup()` removes a conforming block.
-    (Confirmed on the Rust library: `/begin IF_DATA X 1 "a" /* c */ /end IF_DATA` loads with `ifdata_valid = false`.)
-    A completeness theorem therefore needs both side conditions; it is not proved here. -/
-theorem conforming_accepted_needs_no_trailing_comment :
-    span exToksComment 0 5 = span exToks 0 4 ∧
-    (∃ sp ∈ [exSpec], Conf true exF32 sp (span exToks 0 4)) ∧
-    resOf (parseIfdata exF32 [exSpec] exCtx (specialEnv exToksComment true) {}) =
-      some ([.ident ['X'], .int 2 16 true, .str ['a', 'b'], .f64 "1.5".toList], false, 5) := by
-  refine ⟨by rfl, ?_, by decide +kernel⟩
-  have h : resOf (parseIfdata exF32 [exSpec] exCtx (specialEnv exToks true) {}) =
-      some ([.ident ['X'], .int 5 16 true, .str ['a', 'b'], .f32 "1.5".toList], true, 4) := by decide
-  cases hr : parseIfdata exF32 [exSpec] exCtx (specialEnv exToks true) {} with
-  | ok rv s' =>
-    obtain ⟨r, v⟩ := rv
-    rw [hr] at h
-    cases r with
-    | none => cases h
-    | some g =>
-      have hv : v = true ∧ s'.pos = 4 := by
-        simp only [resOf, Option.some.injEq, Prod.mk.injEq] at h
-        exact ⟨h.2.1, h.2.2⟩
-      rw [hv.1] at hr
-      have := valid_implies_conforming _ _ _ _ _ _ _ hr
-      rw [hv.2] at this
-      exact this
-  | err d s' => rw [hr] at h; cases h
-  | panic => rw [hr] at h; cases h
-  | fuel => rw [hr] at h; cases h
 
 end A2l.IfData
